@@ -100,6 +100,22 @@ MUTATIONS = [
     ("tlexport/main.py", "        if len(packet_payload) < 6:", "        if len(packet_payload) < 5:", "handle_quic_packet: 5-byte long header read"),
     ("tlexport/output_builder.py", "        self.default_port = 8080", "        self.default_port = 8081", "OutputBuilder: fallback port"),
     ("tlexport/quic/quic_output_builder.py", "        if keep_original_ports is False:", "        if keep_original_ports is True:", "QUICOutputbuilder: flag inverted"),
+    # group Builders: the output builders
+    ("tlexport/quic/quic_output_builder.py", "            if frame.frame_type in [0x08, 0x09, 0x0a, 0x0b, 0x0c, 0x0d, 0x0e, 0x0f]:", "            if frame.frame_type in [0x08, 0x09, 0x0a, 0x0b, 0x0c, 0x0d, 0x0e]:", "QUICOutputbuilder.build: STREAM type 0x0f not exported"),
+    ("tlexport/quic/quic_output_builder.py", "                if frame.frame_type == 0x06:\n                    data = frame.crypto", "                if frame.frame_type == 0x07:\n                    data = frame.crypto", "QUICOutputbuilder.build: CRYPTO meta-data under the wrong type"),
+    ("tlexport/quic/quic_output_builder.py", "            if frame.src_packet.ts == ts and frame.src_packet.isserver == isserver:", "            if frame.src_packet.ts == ts:", "QUICOutputbuilder.build: frames of both directions in one datagram"),
+    ("tlexport/quic/quic_output_builder.py", "                self.out.append((packet, ts))\n\n                ts = frame.src_packet.ts", "                self.out.append((packet, frame.src_packet.ts))\n\n                ts = frame.src_packet.ts", "QUICOutputbuilder.build: closed datagram stamped with the next one's time"),
+    ("tlexport/quic/quic_output_builder.py", "                packets = bytearray()\n                packets.extend(data)", "                packets = bytearray()", "QUICOutputbuilder.build: first frame of a new datagram lost"),
+    ("tlexport/quic/quic_output_builder.py", "        if ts is None:\n            # no frame carried data that is exported\n            return self.out", "        if not ts:\n            # no frame carried data that is exported\n            return self.out", "QUICOutputbuilder.build: capture time 0 taken for no data"),
+    ("tlexport/output_builder.py", "        if last_len < record_len:", "        if last_len <= record_len:", "build_server_packet: an empty last part", 0),
+    ("tlexport/output_builder.py", "            parts.append(decrypted[i * part_len: i * part_len + part_len])", "            parts.append(decrypted[i * part_len: i * part_len + part_len + 1])", "build_client_packet: parts overlap by one byte", 1),
+    ("tlexport/output_builder.py", "                self.server_seq += len(parts[i])", "                self.server_seq += len(parts[i]) + 1", "build_server_packet: sequence number off by one per part", 0),
+    ("tlexport/output_builder.py", "                    dport=self.server_port, sport=self.client_port, flags='A', seq=self.client_seq, ack=self.server_seq)", "                    dport=self.server_port, sport=self.client_port, flags='A', seq=self.client_seq, ack=self.client_seq)", "build_server_packet: ACK acknowledges the wrong number", 0),
+    ("tlexport/output_builder.py", "            self.out.append((packet_ack, ts[i]))", "            self.out.append((packet_ack, ts[0]))", "build_client_packet: ACKs all at the first carrier's time", 1),
+    ("tlexport/output_builder.py", "                dport=self.client_port, sport=self.server_port, flags='SA', seq=0, ack=1)", "                dport=self.client_port, sport=self.server_port, flags='SA', seq=0, ack=0)", "build_ack_handshake: SYN-ACK does not acknowledge the SYN", 0),
+    ("tlexport/output_builder.py", "                self.ts_zero = record[1].metadata[0].timestamp", "                self.ts_zero = record[1].metadata[-1].timestamp", "OutputBuilder.build: handshake at the last carrier's time"),
+    ("tlexport/output_builder.py", "            if record[2]:\n                self.build_server_packet(decrypted, ts)", "            if not record[2]:\n                self.build_server_packet(decrypted, ts)", "OutputBuilder.build: directions swapped"),
+    ("tlexport/output_builder.py", "                decrypted = b'123345'", "                decrypted = b'12345'", "OutputBuilder.build: other placeholder"),
     # group KeySched: key_derivator.py, quic_key_generation.py
     ("tlexport/key_derivator.py", "    seed = label + server_random + client_random\n\n    a0 = seed\n    secret_block", "    seed = label + client_random + server_random\n\n    a0 = seed\n    secret_block", "prf_tls_12: randoms swapped in the seed"),
     ("tlexport/key_derivator.py", "    return secret_block[:length]", "    return secret_block[:length - 1]", "prf_tls_12: one byte short", 1),
@@ -179,6 +195,8 @@ REWRITES = [
     ("tlexport/key_derivator.py", [("        secret_block = secret_block + h.finalize()", "        secret_block += h.finalize()")], "prf_tls_12: `x = x + y` written `x += y`"),
     ("tlexport/key_derivator.py", [("    if use_aead:\n        mac_length = 0\n\n    key_block = prf_tls_12(", "    if use_aead != 0:\n        mac_length = 0\n\n    key_block = prf_tls_12(")], "dev_tls_12_keys: truthiness written `!= 0`"),
     ("tlexport/key_derivator.py", [("    h = hmac.HMAC(pm_secret, mac())\n    h.update(a1)\n    a2 = h.finalize()\n\n    h = hmac.HMAC(pm_secret, mac())\n    h.update(a1 + seed)\n    p1 = h.finalize()\n", "    h = hmac.HMAC(pm_secret, mac())\n    h.update(a1 + seed)\n    p1 = h.finalize()\n\n    h = hmac.HMAC(pm_secret, mac())\n    h.update(a1)\n    a2 = h.finalize()\n")], "gen_master_secret_tls_12: two independent blocks swapped"),
+    ("tlexport/quic/quic_output_builder.py", [("            if frame.src_packet.ts == ts and frame.src_packet.isserver == isserver:", "            if frame.src_packet.isserver == isserver and frame.src_packet.ts == ts:")], "QUICOutputbuilder.build: operands of `and` swapped"),
+    ("tlexport/output_builder.py", [("        record_len = len(decrypted)\n        packet_count = len(ts)\n", "        packet_count = len(ts)\n        record_len = len(decrypted)\n", 0)], "build_server_packet: two independent statements swapped"),
     ("tlexport/session.py", [("                metadata = []\n                record_len = packet_data[index + 3: index + 5]", "                record_len = packet_data[index + 3: index + 5]\n                metadata = []", 0)],
      "extract_server_frame: two independent statements swapped"),
     ("tlexport/session.py", [("        if self.server_cipher_change and isserver and self.can_decrypt:", "        if isserver and self.server_cipher_change and self.can_decrypt:")], "handle_handshake_finished: operands of `and` reordered"),
@@ -211,6 +229,8 @@ def group_of(what):
     if fn in ("prf_tls_12", "prf_tls_10_11", "prf_ssl_30", "gen_master_secret_tls_12", "dev_tls_12_keys", "dev_tls_10_11_keys", "dev_ssl_30_keys",
               "dev_tls_13_keys", "make_info", "dev_initial_keys", "key_update", "dev_quic_keys"):
         return ["KeySched"]
+    if fn in ("QUICOutputbuilder.build", "build_server_packet", "build_client_packet", "build_ack_handshake", "OutputBuilder.build"):
+        return ["Builders"]
     if fn in ("extract_server_frame", "extract_client_frame"):
         return ["Reasm2"]
     if fn in ("extract_server_buf", "extract_client_buf") and "next_seq" in what:
